@@ -126,6 +126,18 @@ func checkMulti(c multiCase) string {
 			return fmt.Sprintf("second Close closed source %d again (%d)", i, s.Closes)
 		}
 	}
+	// a Read after Close and a third Close: nothing is closed again, and no source that has been closed is read (a
+	// body closed by its owner beforehand is the exception: reading it is how the stream finds that out)
+	rn, rerr := mr.Read(make([]byte, 3))
+	_ = mr.Close()
+	for i, s := range srcs {
+		if s.Closes > 1 {
+			return fmt.Sprintf("Read after Close + third Close closed source %d again (%d)", i, s.Closes)
+		}
+		if !s.BodyClosed && s.ReadsAfterClose > 0 {
+			return fmt.Sprintf("source %d was read %d times after it had been closed (the Read after Close returned (%d, %v))", i, s.ReadsAfterClose, rn, rerr)
+		}
+	}
 	// the caller's slice of readers is not disturbed
 	for i := range passed {
 		if passed[i] != readers[i] {
@@ -254,7 +266,10 @@ type recWriter struct {
 	failAt   int // -1 never; else fail once total would exceed failAt (short write)
 	closes   int
 	nocloser bool
+	closeErr int // what Close reports: 0 nil, 1 an error from the first call only (a failed flush), 2 an error from every call
 }
+
+var errWriterClose = errors.New("verif: the tee writer's Close failed")
 
 func (w *recWriter) Write(p []byte) (int, error) {
 	if w.failAt >= 0 && w.buf.Len()+len(p) > w.failAt {
@@ -270,7 +285,13 @@ func (w *recWriter) Write(p []byte) (int, error) {
 
 type recWriteCloser struct{ *recWriter }
 
-func (w recWriteCloser) Close() error { w.closes++; return nil }
+func (w recWriteCloser) Close() error {
+	w.closes++
+	if w.closeErr == 2 || (w.closeErr == 1 && w.closes == 1) {
+		return errWriterClose
+	}
+	return nil
+}
 
 type teeCase struct {
 	Src      srcSpec
@@ -278,21 +299,76 @@ type teeCase struct {
 	WCloser  bool
 	Consumer []int
 	Retry    bool // the consumer reads on after a non-EOF error (a source may report an error once and then go on)
+	// The way the stream is closed: the writer's Close may report an error (WCloseErr: 0 never, 1 from the first call
+	// only, 2 always), the source's too (Src.CloseErr), and Close is called Closes times (0 means 2) whatever the
+	// earlier calls returned - an explicit Close whose error is looked at plus the usual deferred one, or a retry -
+	// optionally with a Read after each of them.
+	WCloseErr      int
+	Closes         int
+	ReadAfterClose bool
 }
 
 func (c teeCase) String() string {
-	return fmt.Sprintf("tee{src=%+v wFailAt=%d wCloser=%v consumer=%v retry=%v}", c.Src, c.WFailAt, c.WCloser, c.Consumer, c.Retry)
+	return fmt.Sprintf("tee{src=%+v wFailAt=%d wCloser=%v wCloseErr=%d consumer=%v retry=%v closes=%d readAfterClose=%v}", c.Src, c.WFailAt, c.WCloser, c.WCloseErr, c.Consumer, c.Retry, c.Closes, c.ReadAfterClose)
+}
+
+// closeRepeatedly is the closing phase shared by the three stream types: Close is called `times` times whatever the
+// earlier calls returned (optionally with a Read after each call), and after EVERY call each closable source must
+// have been closed exactly once - an error reported by the Close of a source or of the tee's writer does not make
+// the stream close anything a second time - and a source that has been closed is not read any more.
+func closeRepeatedly(st io.ReadCloser, times int, readAfter bool, closable []*vk.ScriptReader, extra func(k int, err error) string) string {
+	if times <= 0 {
+		times = 2
+	}
+	var errsSeen []error
+	for k := 1; k <= times; k++ {
+		err := st.Close()
+		errsSeen = append(errsSeen, err)
+		for i, s := range closable {
+			if s.Closes != 1 {
+				return fmt.Sprintf("after Close call #%d (the calls returned %v) closable source %d had been closed %d times, want exactly 1", k, errsSeen, i, s.Closes)
+			}
+		}
+		if extra != nil {
+			if msg := extra(k, err); msg != "" {
+				return msg
+			}
+		}
+		if readAfter {
+			n, e := st.Read(make([]byte, k+1))
+			for i, s := range closable {
+				if s.ReadsAfterClose > 0 {
+					return fmt.Sprintf("Read after Close call #%d (the calls returned %v) read from source %d, which had been closed; it returned (%d, %v)", k, errsSeen, i, n, e)
+				}
+			}
+		}
+	}
+	return ""
 }
 
 func checkTee(c teeCase) string {
 	d := data(c.Src.Len, 0x33)
 	srcErr := vk.FaultErrors[c.Src.FailErr%len(vk.FaultErrors)]
 	src := &vk.ScriptReader{Data: d, Chunks: c.Src.Chunks, EOFWith: c.Src.EOFWith, FailAt: c.Src.FailAt, FailWith: c.Src.FailWith, FailOnce: c.Src.FailOnce, Err: srcErr}
+	if c.Src.CloseErr {
+		src.CloseErr = errSrcClose
+	}
 	var r io.Reader = src
+	var closable []*vk.ScriptReader
 	if c.Src.NoCloser {
 		r = vk.ReaderOnly{R: src}
+	} else {
+		closable = append(closable, src)
 	}
-	rw := &recWriter{failAt: c.WFailAt}
+	rw := &recWriter{failAt: c.WFailAt, closeErr: c.WCloseErr}
+	closing := func(tee *streams.TeeReadCloser) string {
+		return closeRepeatedly(tee, c.Closes, c.ReadAfterClose, closable, func(k int, err error) string {
+			if c.WCloser && rw.closes != 1 {
+				return fmt.Sprintf("after Close call #%d (it returned %v) the writer had been closed %d times", k, err, rw.closes)
+			}
+			return ""
+		})
+	}
 	var w io.Writer = rw
 	if c.WCloser {
 		w = recWriteCloser{rw}
@@ -319,11 +395,7 @@ func checkTee(c teeCase) string {
 				return fmt.Sprintf("the source's error is sticky, but reading on through the tee gave %d more bytes and %v", len(more), err2)
 			}
 		}
-		_ = tee.Close()
-		if !c.Src.NoCloser && src.Closes != 1 {
-			return fmt.Sprintf("after Close the source was closed %d times", src.Closes)
-		}
-		return ""
+		return closing(tee)
 	}
 	out, err := consume(tee, c.Consumer)
 	avail := d
@@ -364,18 +436,7 @@ func checkTee(c teeCase) string {
 			return fmt.Sprintf("consumer received %d bytes but only %d reached the writer", len(out), rw.buf.Len())
 		}
 	}
-	_ = tee.Close()
-	if !c.Src.NoCloser && src.Closes != 1 {
-		return fmt.Sprintf("after Close the source was closed %d times", src.Closes)
-	}
-	if c.WCloser && rw.closes != 1 {
-		return fmt.Sprintf("after Close the writer was closed %d times", rw.closes)
-	}
-	_ = tee.Close()
-	if src.Closes > 1 || rw.closes > 1 {
-		return fmt.Sprintf("second Close closed again (src %d, writer %d)", src.Closes, rw.closes)
-	}
-	return ""
+	return closing(tee)
 }
 
 func TestTeeRapid(t *testing.T) {
@@ -390,10 +451,28 @@ func TestTeeRapid(t *testing.T) {
 			c.Consumer = []int{-1}
 		}
 		c.Retry = rapid.Bool().Draw(rt, "retry")
+		if c.WCloser {
+			c.WCloseErr = rapid.SampledFrom([]int{0, 0, 1, 2}).Draw(rt, "wCloseErr")
+		}
+		c.Closes = rapid.IntRange(1, 3).Draw(rt, "closes")
+		c.ReadAfterClose = rapid.Bool().Draw(rt, "readAfterClose")
 		if msg := checkTee(c); msg != "" {
 			rt.Fatalf("C16 tee violated: %s\ncase: %s", msg, c)
 		}
-		sec.Case(c.Src.Len >= 2 && len(c.Src.Chunks) > 0, vk.FP(c.String()), "tee")
+		classes := []string{"tee", fmt.Sprintf("tee.closes=%d", c.Closes)}
+		if c.WCloseErr > 0 {
+			classes = append(classes, "tee.writerCloseErr")
+		}
+		if c.Src.CloseErr && !c.Src.NoCloser {
+			classes = append(classes, "tee.sourceCloseErr")
+		}
+		if (c.WCloseErr > 0 || (c.Src.CloseErr && !c.Src.NoCloser)) && c.Closes >= 2 {
+			classes = append(classes, "tee.closeErr+closedAgain")
+		}
+		if c.ReadAfterClose {
+			classes = append(classes, "tee.readAfterClose")
+		}
+		sec.Case(c.Src.Len >= 2 && len(c.Src.Chunks) > 0, vk.FP(c.String()), classes...)
 		sec.Sample(func() any { return c.String() })
 	})
 }
@@ -420,7 +499,13 @@ func TestTeeSweep(t *testing.T) {
 						if !vk.Mine(idx) {
 							continue
 						}
-						c := teeCase{Src: srcSpec{Len: L, Chunks: chunks, EOFWith: ew, FailAt: -1}, WFailAt: -1, WCloser: idx%2 == 0, Consumer: cons}
+						// the way the stream is closed rotates with the case number: Close errors of the writer / the source,
+						// two or three Close calls, a Read after each
+						c := teeCase{Src: srcSpec{Len: L, Chunks: chunks, EOFWith: ew, FailAt: -1, CloseErr: idx%5 == 3}, WFailAt: -1, WCloser: idx%2 == 0, Consumer: cons,
+							WCloseErr: []int{0, 1, 0, 2}[(idx/2)%4], Closes: 2 + (idx/8)%2, ReadAfterClose: idx%3 == 0}
+						if !c.WCloser {
+							c.WCloseErr = 0
+						}
 						if msg := checkTee(c); msg != "" {
 							t.Fatalf("C16 tee violated: %s\ncase: %s", msg, c)
 						}
